@@ -89,12 +89,31 @@ def cfg_oracle(case, impl):
     outs = toks[2:]
     le = dict(c["groups"])           # entry -> LastEval as far as the oracle can know it
     last = {}                        # entry -> clock of its latest observed evaluation
+    listed = set(g for g, _ in c["groups"])   # the groups the storage subsystem lists (answered refreshes only)
     gate = False
+    dead = False                     # a failed Unlock(): the old lock was never released, nothing may be issued again
     for k, ev in enumerate(c["events"]):
         if k >= len(outs):
             break
+        if outs[k] == "PANIC" or outs[k].startswith("CRASH:"):
+            break                    # the process is gone: nothing is issued any more
         o = outs[k].lstrip("!")
         kind = ev[0]
+        if kind == "ue":
+            if not o.startswith("UE"):
+                return None
+            gate = False
+            dead = True
+            if "+" in o:
+                return ("group(s) %s requested after the session expiry although lock.Unlock() FAILED: the old lock was not "
+                        "released and Lock() was not called again" % ",".join(_ids("+" + o.split("+", 1)[1], "+")))
+            continue
+        if dead and kind in ("k", "t"):
+            ids = _ids(o, o[:2]) if o[:2] in ("K:", "T:") else []
+            if ids:
+                return ("group(s) %s requested at clock %d after a failed lock.Unlock(): no successful Unlock and Lock since "
+                        "the session expiry" % (",".join(ids), ev[1]))
+            continue
         if kind in ("k", "t"):
             now = ev[1]
             if kind == "k":
@@ -108,6 +127,8 @@ def cfg_oracle(case, impl):
                 return "group(s) %s requested at clock %d while the lock is not held" % (",".join(ids), now)
             seen = set()
             for g in ids:
+                if g not in listed:
+                    return "group %s requested at clock %d although the storage subsystem does not list it" % (g, now)
                 if g in seen and exp > 0:
                     return "group %s requested more than once in the iteration(s) at clock %d (shortest configured interval %d s)" % (g, now, exp)
                 seen.add(g)
@@ -130,19 +151,24 @@ def cfg_oracle(case, impl):
             if "+" in o and not gate:
                 return ("group(s) %s requested after %s while the lock is not held"
                         % (",".join(_ids("+" + o.split("+", 1)[1], "+")), "the session expiry" if kind == "x" else "a failed lock.Lock()"))
-        elif kind == "r":
+        elif kind in ("r", "rs"):
             if not o.startswith("R:"):
                 return None
             body = o[2:].split("+")[0].replace("RANGEBAD", "")
             ents = dict(x.split("=") for x in body.split(",") if "=" in x)
-            le = {g: int(v) for g, v in ents.items()}
-            listed = set(g for g, _ in ev[2])
-            for g in list(last):
-                if g not in listed:
-                    del last[g]
+            if kind == "r":
+                # an answered refresh: the listed groups are the known groups (new entries get the LastEval the
+                # implementation reports); a refresh that was not answered changes nothing the oracle knows
+                listed = set(g for g, _ in ev[2])
+                le = {g: int(ents[g]) if g in ents else le.get(g, ev[1]) for g in listed}
+                for g in list(last):
+                    if g not in listed:
+                        del last[g]
             if "+" in o:
                 ids = _ids("+" + o.split("+", 1)[1], "+")
                 for g in ids:
+                    if not gate:
+                        return "group %s requested during the list refresh while the lock is not held" % g
                     if g in last and 0 <= ev[1] - last[g] < exp * G.NS:
                         return ("group %s evaluated at %d and again at %d (during the list refresh), shortest configured interval %d s"
                                 % (g, last[g], ev[1], exp))
@@ -186,6 +212,7 @@ def run(chk, failed):
     n_pace = 45 if not chk.thorough else 1500
     n_cfg = 30 if not chk.thorough else 600
     n_cfg_only = 90 if not chk.thorough else 4000
+    n_iso = 5 if not chk.thorough else 60
     cases, tags = [], []
     for ln in C.read_corpus(chk.pid):
         cases.append(ln); tags.append(["corpus"])
@@ -208,6 +235,15 @@ def run(chk, failed):
     for i in range(n_cfg_only):
         ln, tg = G.gen_cfg(rng, i, scenario=False)
         cases.append(ln); tags.append(tg)
+    # isolated scenarios: a failing Unlock() (HEAD panics), a storage request that is not taken within its 1 s timeout;
+    # one child process each, run in parallel with the rest
+    for ln in G.FIXED_ISO:
+        cases.append(ln); tags.append(["fixed", "unlock-error" if " ue " in ln else "storage-stall"])
+    for i in range(n_iso):
+        ln, tg = G.gen_cfg_unlock_error(rng, i)
+        cases.append(ln); tags.append(tg)
+        ln, tg = G.gen_cfg_storage_stall(rng, i)
+        cases.append(ln); tags.append(tg)
     chk.rule = ("loop: scripted fault sequences against a started Coordinator (1-5 expiry/reconnect cycles, lock errors, lost "
                 "broadcasts, connection flaps, back-to-back relock); non-trivial = at least one expiry delivered while evaluating "
                 "and at least one later re-acquisition or a non-evaluating phase observed; pace: sendEvaluatorRequests / "
@@ -216,6 +252,8 @@ def run(chk, failed):
                 "viper configuration (0-4 modules null/http/email, interval / send-interval / threshold present or absent, via "
                 "viper.Set or a TOML document), then the loop it configured, Started, under the scripted lock and the virtual clock "
                 "(minInterval, doEvaluations and the group list all produced by the real code), ticks at shortest+0/+1 ns; "
+                "isolated cfg scenarios in child processes: lock.Unlock() failing after an expiry (first / later cycle), a group "
+                "refresh whose storage request (cluster list / consumer list) is not taken within the 1 s timeout; "
                 "non-trivial = at least two modules, or a scenario with a request and a tick without; distinct by the case line")
     impl, model, mism = chk.differential("evalloop", "evalloop", "TestVerifProbeEvalloop", cases, name="evalloop",
                                          project=seq_of, timeout=1500)
